@@ -61,6 +61,7 @@ const (
 	sigSkipRoot  = "defect:skip-on-root-panics"
 	sigD19       = "defect:typeinfo-not-left-on-skip"
 	sigUnkDirArg = "defect:typeinfo-unknown-directive-arg-typed-by-field"
+	sigTypedNil  = "defect:typeinfo-typed-nil-for-missing-root-type"
 )
 
 type runner struct {
@@ -142,7 +143,7 @@ func gramdocText(r *core.RNG, typeSystem bool) (text string, ok bool) {
 			text, ok = "", false
 		}
 	}()
-	doc := gramdoc.Gen(r, gramdoc.Options{Executable: !typeSystem, TypeSystem: typeSystem, MaxDepth: r.Range(2, 6), MaxWidth: 4, MaxDefs: 4})
+	doc := gramdoc.Gen(r, gramdoc.Options{Executable: !typeSystem, TypeSystem: typeSystem, MaxDepth: r.Range(2, 6), MaxWidth: r.Range(2, 4), MaxDefs: r.Range(1, 4)})
 	return gramdoc.Render(doc, gramdoc.Compact()), true
 }
 
@@ -208,7 +209,7 @@ func (x *runner) makeTree(t int) *tree {
 	if sch != nil {
 		tr.sch = sch
 		tc := computeTypes(sch.model, doc)
-		tr.types, tr.dcTypes, tr.unkDirOf = tc.out, tc.dc, tc.unkDirOf
+		tr.types, tr.dcTypes, tr.unkDirOf, tr.noRoot = tc.out, tc.dc, tc.unkDirOf, tc.noRoot
 	}
 	return tr
 }
@@ -319,8 +320,22 @@ func (x *runner) runTree(t int, tr *tree) {
 	rt := c.RNG(uint64(t), 77)
 	nn := len(tr.nodes)
 
+	// big trees get a reduced set of cases (cost is nodes x cases)
+	big := nn > 250
+	if big {
+		c.Feature("big-tree-reduced-cases")
+	}
+	nB, nC := 3, 2
+	if big {
+		nB, nC = 1, 1
+	}
+
 	// A. all-continue in the four documented forms and one mixed form
-	for _, name := range pureForms {
+	for i, name := range pureForms {
+		if big && i != t%len(pureForms) {
+			x.pcase++
+			continue
+		}
 		x.single(pureForm(name), &policy{}, false)
 	}
 	x.single(mixedForm(rt.Derive(1)), &policy{}, false)
@@ -333,15 +348,18 @@ func (x *runner) runTree(t int, tr *tree) {
 	}
 
 	// B. random policies, density 1-10 %
-	for i := 0; i < 3; i++ {
+	for i := 0; i < nB; i++ {
 		r := rt.Derive(3, uint64(i))
 		x.single(x.randomForm(r), randomPolicy(r, tr.nodes, r.Range(10, 100)), false)
 	}
 
 	// C. parallel visitors with independent policies
-	for i := 0; i < 2; i++ {
+	for i := 0; i < nC; i++ {
 		r := rt.Derive(4, uint64(i))
 		k := r.Range(1, 5)
+		if big {
+			k = r.Range(2, 3)
+		}
 		var forms []*formSpec
 		var pols []*policy
 		for v := 0; v < k; v++ {
@@ -389,8 +407,12 @@ func (x *runner) runTree(t int, tr *tree) {
 		return
 	}
 	x.typed(pureForm("generic"), &policy{})
-	x.typed(pureForm("kind"), &policy{})
-	for i := 0; i < 2; i++ {
+	if !big {
+		x.typed(pureForm("kind"), &policy{})
+	} else {
+		x.pcase++
+	}
+	for i := 0; i < nC; i++ {
 		r := rt.Derive(6, uint64(i))
 		x.typed(x.randomForm(r), randomPolicy(r, tr.nodes, r.Range(10, 100)))
 	}
@@ -580,7 +602,13 @@ func (x *runner) typeMismatches(got []obs) []typeMismatch {
 			continue
 		}
 		if g.TI.typedNil {
-			x.c.Feature("typeinfo:getter-returned-typed-nil")
+			// a getter returned a non-nil interface that holds a nil pointer:
+			// not a type. Known class: operations whose root type the schema lacks.
+			class := "other"
+			if tr.noRoot[g.Node] && (exp.Type == "" || exp.ParentType == "") {
+				class = "typed-nil-root"
+			}
+			out = append(out, typeMismatch{i, class, fmt.Sprintf("at index %d (%s %s): Type()/ParentType() returned a non-nil interface holding a nil pointer (observed, nil normalised: %s)", i, g.Phase, tr.nodeName(g.Node), g.TI)})
 		}
 		var attrs []string
 		add := func(name, e, o string) {
@@ -609,6 +637,16 @@ func (x *runner) typeMismatches(got []obs) []typeMismatch {
 		out = append(out, typeMismatch{i, class, fmt.Sprintf("at index %d (%s %s): %s", i, g.Phase, tr.nodeName(g.Node), strings.Join(attrs, "; "))})
 	}
 	return out
+}
+
+// reportTypeDefects files the precisely signed type-tracking defect classes.
+func (x *runner) reportTypeDefects(ms []typeMismatch, what map[string]interface{}) {
+	if u := firstOf(ms, "unknown-directive-arg"); u != nil {
+		x.report(&mismatch{sigUnkDirArg, "argument of a directive the schema does not define is typed by the enclosing field's argument of the same name: " + u.msg, nil}, what)
+	}
+	if u := firstOf(ms, "typed-nil-root"); u != nil {
+		x.report(&mismatch{sigTypedNil, "operation whose root type the schema does not have: " + u.msg, nil}, what)
+	}
 }
 
 func firstOf(ms []typeMismatch, class string) *typeMismatch {
@@ -651,9 +689,7 @@ func (x *runner) typed(f *formSpec, pol *policy) {
 	x.checkSeq(f, walk.Walk(tr.root, pf, 0, wo), rec.evs, "seq:"+f.Name, wo, what)
 	ms := x.typeMismatches(rec.evs)
 	c.FeatureN("typeinfo-samples", int64(len(rec.evs)))
-	if u := firstOf(ms, "unknown-directive-arg"); u != nil {
-		x.report(&mismatch{sigUnkDirArg, "argument of a directive the schema does not define is typed by the enclosing field's argument of the same name: " + u.msg, nil}, what)
-	}
+	x.reportTypeDefects(ms, what)
 	if o := firstOf(ms, "other"); o != nil {
 		sig := "typeinfo"
 		// D19 predicate: a skip was answered on enter of a node TypeInfo tracks
@@ -719,9 +755,7 @@ func (x *runner) typedParallel(forms []*formSpec, pols []*policy) {
 		x.checkSeq(forms[i], walk.Walk(tr.root, pf, i, wo), recs[i].evs, "parallel", wo, w)
 		ms := x.typeMismatches(recs[i].evs)
 		c.FeatureN("typeinfo-samples", int64(len(recs[i].evs)))
-		if u := firstOf(ms, "unknown-directive-arg"); u != nil {
-			x.report(&mismatch{sigUnkDirArg, "argument of a directive the schema does not define is typed by the enclosing field's argument of the same name: " + u.msg, nil}, w)
-		}
+		x.reportTypeDefects(ms, w)
 		if o := firstOf(ms, "other"); o != nil {
 			x.report(&mismatch{"typeinfo", "type tracking reports other types than apply: " + o.msg, nil}, w)
 		}
